@@ -522,8 +522,9 @@ pub fn gen_pipe_in(rng: &mut Rng) -> Program {
     let mut g = Gen::new(rng, n_objs);
     let o = 0;
     let s = 0;
-    let n_items = g.rng.range(0, 8) as usize;
-    let prefilled = g.rng.range(0, n_items as u64) as usize;
+    // (bursts: now and then a long run of items is ready at once, so that whatever the pipe does per batch is reached)
+    let n_items = if g.rng.permille(250) { g.rng.range(8, 14) as usize } else { g.rng.range(0, 8) as usize };
+    let prefilled = if g.rng.permille(300) { n_items } else { g.rng.range(0, n_items as u64) as usize };
     let mut t0 = vec![];
     // some items are there before the pipe exists
     for i in 0..prefilled {
@@ -734,6 +735,47 @@ pub fn gen_pipe_drop_sweep(rng: &mut Rng) -> Program {
     prog.n_outs = 1;
     prog.mark_on_stream_poll = Some(s);
     prog.phases = vec![Phase { ctl: vec![], threads: vec![t0, injector], env_gates: envg, env_streams: vec![] }];
+    finish(prog, &g)
+}
+
+/// C11: the last owner of the target is released at every scheduling point of the context that polls the input,
+/// through bursts long enough to reach whatever the pipe does per batch of items.
+pub fn gen_pipe_in_drop_sweep(rng: &mut Rng) -> Program {
+    // (mostly one pool thread: the context that polls the input first is then the one that polls it every time)
+    let pool_max = if rng.permille(700) { 1 } else { 2 };
+    let mut g = Gen::new(rng, 1);
+    let (o, s) = (0, 0);
+    let n_items = if g.rng.permille(500) { g.rng.range(8, 14) as usize } else { g.rng.range(0, 8) as usize };
+    let mut t0 = vec![];
+    // either the burst is there before the pipe exists (the caller of pipe_in may then still hold its own owner while the
+    // first items are processed), or it arrives after pipe_in has returned and the caller's owner is gone
+    let burst_first = g.rng.permille(400);
+    if burst_first {
+        for i in 0..n_items {
+            t0.push({ let __k = OpKind::Push { s, item: 10 + i as u32 }; g.op(__k) });
+        }
+    }
+    let mut body = vec![];
+    if g.rng.permille(300) {
+        body.push(Step::Yield(1));
+    }
+    t0.push({ let __k = OpKind::PipeIn { o, s, body }; g.op(__k) });
+    if !burst_first {
+        for i in 0..n_items {
+            t0.push({ let __k = OpKind::Push { s, item: 10 + i as u32 }; g.op(__k) });
+        }
+    }
+    let injector = vec![{ let __k = OpKind::SweepWait; g.op(__k) }, { let __k = OpKind::DropObj { o }; g.op(__k) }, { let __k = OpKind::SweepDone; g.op(__k) }];
+    let mut env = vec![];
+    if g.rng.permille(500) {
+        env.push({ let __k = OpKind::Yield(g.rng.range(1, 4) as u8); g.op(__k) });
+        env.push({ let __k = OpKind::Push { s, item: 10 + n_items as u32 }; g.op(__k) });
+    }
+    let mut prog = base_program(pool_max, 1);
+    prog.n_streams = 1;
+    prog.mark_on_stream_poll = Some(s);
+    prog.prespawn = g.rng.permille(300);
+    prog.phases = vec![Phase { ctl: vec![], threads: vec![t0, injector], env_gates: vec![], env_streams: env }];
     finish(prog, &g)
 }
 
